@@ -146,8 +146,8 @@ class FadingSampleGenerator:
         new_shape : None | int | tuple[int]
             The shape of the generated channel.
         """
-        if isinstance(new_shape, int):
-            self._shape = (new_shape, )
+        if isinstance(new_shape, (int, np.integer)):
+            self._shape = (int(new_shape), )
         else:
             self._shape = new_shape
 
